@@ -80,7 +80,16 @@ func runStop(t *testing.T, rc *core.RunCtx) {
 		rc.Logf("node %s role=%s latency=%v", p.addr.IP, role, beh.BaseLatency)
 	}
 	persist := tp.Chance(1, 3)
-	if err := w.startClient(func(cfg *neutrino.Config) { cfg.PersistToDisk = persist }); err != nil {
+	// One run in four: one of the configured peers is a host name that does
+	// not resolve (the resolver goroutine keeps retrying with a back-off).
+	badHost := tp.Chance(1, 4)
+	if err := w.startClient(func(cfg *neutrino.Config) {
+		cfg.PersistToDisk = persist
+		if badHost {
+			cfg.ConnectPeers = append(cfg.ConnectPeers, "no-such-host.invalid:18444")
+			rc.Probe("unresolvable_peer_configured")
+		}
+	}); err != nil {
 		rc.Infra("start client: %v", err)
 	}
 	wt := w.newWatcher(rc.Prop)
@@ -125,6 +134,7 @@ func runStop(t *testing.T, rc *core.RunCtx) {
 	// cannot wait through (simulated time would freeze): at most one of the
 	// calls that fetch filters (GetCFilter, GetUtxo, Rescan) per run.
 	filterUser := false
+	utxoUser := false // the filter-fetching call of this run is GetUtxo: more of them may follow
 	// A rescan is a background job with its own quit channel: it must not
 	// keep Stop from returning, and once its owner cancels it (after Stop
 	// has returned) it must wind down although the client is gone.
@@ -133,10 +143,16 @@ func runStop(t *testing.T, rc *core.RunCtx) {
 		blk := chain[1+tp.Intn(n)]
 		kind := tp.Intn(9)
 		if kind >= 1 && kind <= 3 {
-			if filterUser {
+			switch {
+			case filterUser && utxoUser && kind == 2:
+				// several UTXO scans queue up behind one another inside the
+				// scanner (one goroutine fetches their filters)
+			case filterUser:
 				kind = 0
+			default:
+				filterUser = true
+				utxoUser = kind == 2
 			}
-			filterUser = true
 		}
 		switch kind {
 		case 0:
